@@ -8,6 +8,7 @@ import PngVerif.Driver.Components
 import PngVerif.Driver.C17
 import PngVerif.Driver.C12
 import PngVerif.Driver.Reader
+import PngVerif.Driver.C06DataPath
 /-!
 `pngmodel`: line-protocol driver.  One case per input line, one canonical answer per output line,
 `bad-op` for anything that does not parse (never a default).  The functions called here are the
@@ -27,6 +28,7 @@ def answer (line : String) : String :=
   | "c17" :: args => c17 args
   | "c12" :: args => c12 args
   | "rdr" :: args => rdr args
+  | "c06dp" :: args => c06dp args
   | _ => "bad-op"
 
 partial def loop (hin hout : IO.FS.Stream) : IO Unit := do
